@@ -94,6 +94,21 @@ pub fn main(args: &Args) -> std::io::Result<()> {
         let scaled = k > 1.0 + 1e-9;
         // direction and size selected by the flags
         let sw = arc.sweep_angle.radians;
+        // radii too small for the chord are scaled by the smallest factor that makes it fit (SVG F.6.6): the square
+        // root of (x'/rx)^2 + (y'/ry)^2 with (x', y') the half chord in the ellipse's frame; the chord is then a diameter
+        {
+            let (c0, s0) = (rot.cos(), rot.sin());
+            let hd = ((from.x - to.x) / 2.0, (from.y - to.y) / 2.0);
+            let p = (c0 * hd.0 + s0 * hd.1, -s0 * hd.0 + c0 * hd.1);
+            let rf = p.0 * p.0 / (arx * arx) + p.1 * p.1 / (ary * ary);
+            let want = if rf > 1.0 { rf.sqrt() } else { 1.0 };
+            if (k - want).abs() > 1e-7 * want {
+                st.fail(jobj(&[("what", jstr("radii too small for the chord are not scaled by the smallest factor that makes it fit")), ("input", jstr(&format!("{} -> radii {:?}: factor {} expected {}", label, arc.radii, k, want)))]));
+            }
+            if rf > 1.0 + 1e-6 && (sw.abs() - pi).abs() > 1e-5 {
+                st.fail(jobj(&[("what", jstr("an arc whose radii were scaled up to fit the chord does not sweep half a turn")), ("input", jstr(&format!("{} -> sweep {}", label, sw)))]));
+            }
+        }
         if (flags.sweep && sw < -1e-9) || (!flags.sweep && sw > 1e-9) {
             st.fail(jobj(&[("what", jstr("sweep direction does not follow the sweep flag")), ("input", jstr(&format!("{} -> sweep {}", label, sw)))]));
         }
